@@ -218,7 +218,7 @@ Section Inv.
   Local Opaque settle_spawned.
   Lemma cinv_step T l cw cw' : cinv cw -> cstep T l cw = Some cw' -> cinv cw'.
   Proof.
-    intros (Hfg & Hbg & Hk) H. unfold cstep in H. destruct l as [i|j].
+    intros (Hfg & Hbg & Hk) H. unfold cstep in H. destruct l as [i|j|].
     - destruct (nth_error (cw_fg cw) i) as [t|] eqn:En; [|discriminate].
       destruct (Forall2_nth _ _ _ _ _ Hfg En) as (q & Hq & Hok).
       assert (Hin : In q qs) by (eapply nth_error_In; exact Hq).
@@ -259,6 +259,7 @@ Section Inv.
         * apply settle_spawned_ok. eapply Forall_impl; [|exact HF]. intros b Hb.
           eapply bg_root_spawn; [|exact Hb]. eapply bg_root_sub; [exact Hroot|exact HP1].
       + eapply perform_keys; [apply bg_root_writes, Hroot|exact Hk|exact Ep].
+    - injection H as <-. split; [exact Hfg|split; [exact Hbg|exact Hk]].
   Qed.
 
   Lemma cinv_schedule T sched : forall cw n cw' n', cinv cw -> run_schedule T sched cw n = (cw', n') -> cinv cw'.
